@@ -11,7 +11,7 @@ CORRESPONDENCE = "installNewVersion/installNewObject + avoids (lean/RocflModel/S
 BUDGET = {"quick": dict(histories=40, ops=12, seconds=150), "thorough": dict(histories=400, ops=22, seconds=1500)}
 RULE = ("histories of real CLI invocations (init/new/cp/mv/rm/reset/commit/upgrade/purge, 1-3 objects, 4 layouts + none, both staging placements), "
         "every invocation under strace; each mutating system call is judged individually against the set of version directories committed before the "
-        "operation; distinct non-trivial = distinct (operation, exit status)")
+        "operation; plus commits replayed with every mutating call failing once and with SIGKILL before each call, judged the same way; distinct non-trivial = distinct (operation, exit status)")
 
 
 def make_oracles():
@@ -21,6 +21,57 @@ def make_oracles():
 def run(rep, tier, seed, proof_broken=False):
     import vlib.props.C03 as me
     physprop.run(rep, me, tier, seed, proof_broken)
+    fault_phase(rep, tier, seed)
+
+
+FAULT_BUDGET = {"quick": dict(commits=4, seconds=60), "thorough": dict(commits=40, seconds=900)}
+
+
+def fault_phase(rep, tier, seed):
+    """the same judgement on operations that fail or are killed: every commit is replayed with one system
+    call failing (EIO) and with SIGKILL before each call; no call may touch, and no byte may change in,
+    a version directory committed before"""
+    import os, random, re, time
+    from vlib import faultprop, phys
+    rng = random.Random(seed + 3)
+    budget = FAULT_BUDGET["thorough" if tier == "thorough" else "quick"]
+    t_end = time.time() + budget["seconds"]
+    fails = []
+    for i in range(budget["commits"]):
+        if time.time() > t_end:
+            break
+        sb = phys.Sandbox(ext_staging=rng.random() < 0.3)
+        try:
+            case = faultprop.prepare(random.Random(rng.getrandbits(48)), sb)
+            rep.evaluations += 1
+            for mode in ("err", "kill"):
+                for c, obs in faultprop.enumerate_case(case, mode, ["EIO"], rep, "quick", rng):
+                    oroot, v = obs["oroot"], obs["v"]
+                    committed = sorted({k.split("/")[0] for k in obs["T_old"] if re.fullmatch(r"v\d+", k.split("/")[0]) and k.split("/")[0] != v})
+                    what = "%s of a %s commit (`%s` at %s)" % ("single failure" if mode == "err" else "kill", case.kind, obs["inject"], obs["call"])
+                    rep.evaluations += 1
+                    for call in obs["calls"]:
+                        if not phys.mutating(call):
+                            continue
+                        ps = call.paths[-1:] if call.kind == "copy" else call.paths
+                        for p in ps:
+                            for d in committed:
+                                top = os.path.join(sb.root, oroot, d)
+                                if p == top or p.startswith(top + "/"):
+                                    fails.append(("%s: %s %s touches the committed version directory %s" % (what, call.name, sb.rel(p), d), obs["inject"], case))
+                    for k, x in obs["T_old"].items():
+                        if k.split("/")[0] in committed and obs["T"].get(k) != x:
+                            fails.append(("%s: committed %s changed or vanished" % (what, k), obs["inject"], case))
+        finally:
+            sb.close()
+    seen = set()
+    for f, inj, case in fails:
+        key = re.sub(r"#\d+|[0-9a-f]{8,}|when=\d+", "#", f)[:100]
+        if key in seen or len(seen) >= 3:
+            continue
+        seen.add(key)
+        rep.violation(dict(kind="oracle-failure", oracle="append-only-under-faults", what=f, replay=dict(kind=case.kind, args=case.args, inject=inj),
+                           how="prepare the state with vlib/faultprop.prepare(seed) and run the commit under `strace -e inject=<inject>`"))
 
 
 def replay(rep, payload):
